@@ -313,10 +313,19 @@ def sexprs(text):
 def has_repeated_arith_operand(*texts):
     """(+ x x), (* x x), (- x x) or (/ x x) occurs in the text: pddl 0.4 drops the repeated operand of an arithmetic
     operator (its operand flattening de-duplicates even for non-idempotent operators)"""
+    def operands(n, head):
+        out = []
+        for x in n[1:]:
+            if head in ("+", "*") and isinstance(x, list) and x and x[0] == head:
+                out += operands(x, head)          # the parser flattens nested + / * before it de-duplicates
+            else:
+                out.append(json.dumps(x))
+        return out
+
     def walk(n):
         if isinstance(n, list):
-            if n and n[0] in ("+", "*", "-", "/") and len(n) >= 3:
-                args = [json.dumps(x) for x in n[1:]]
+            if n and n[0] in ("+", "*", "-", "/", "=") and len(n) >= 3:
+                args = operands(n, n[0])
                 if len(set(args)) < len(args):
                     return True
             return any(walk(x) for x in n)
@@ -372,6 +381,55 @@ def pddl_lib_drops_duplicate_effect(dom):
         return n
     lib = sum(count_lib(a.effect, set()) for a in d.actions)
     return lib < count_text(tree)
+
+
+def complete_undefined(problem):
+    """a clone in which every ground fluent without an initial value gets one (false / 0 or the nearest bound / the
+    first object): used to decide whether a disagreement is due ONLY to reads of undefined fluents"""
+    q = problem.clone()
+    em = q.environment.expression_manager
+    have = set(q.initial_values)
+    for f in q.fluents:
+        if any(not pp.type.is_user_type() for pp in f.signature):
+            continue
+        for args in product(*[list(q.objects(pp.type)) for pp in f.signature]):
+            fe = em.FluentExp(f, tuple(em.ObjectExp(o) for o in args))
+            if fe in have:
+                continue
+            t = f.type
+            if t.is_bool_type():
+                v = False
+            elif t.is_user_type():
+                objs = list(q.objects(t))
+                if not objs:
+                    continue
+                v = objs[0]
+            else:
+                v = 0
+                if t.lower_bound is not None and t.lower_bound > 0:
+                    v = t.lower_bound
+                if t.upper_bound is not None and t.upper_bound < 0:
+                    v = t.upper_bound
+            q.set_initial_value(fe, v)
+    return q
+
+
+def only_undefined_reads(ctx, o):
+    """True when the two problems of a failing comparison agree (bisim_check does not fail) once every undefined ground
+    fluent of both has been given a value: the disagreement then comes only from the strict reading of undefined
+    fluents (an undefined condition is not satisfied / makes the effect fail), which the implementation's simulator
+    does not follow (known deviation C01-simplified-undefined-read)"""
+    if "rebuild" not in o:
+        return False
+    try:
+        P2, Q2 = complete_undefined(o["P"]), complete_undefined(o["Q"])
+        if len(P2.initial_values) == len(o["P"].initial_values) and len(Q2.initial_values) == len(o["Q"].initial_values):
+            return False
+        case = o["rebuild"](P2, Q2)
+        code = ctx.coq_codes([case], "Corr_C18.code", imports=IMPORTS, shard=1, label="undef")[0]
+    except Exception:  # noqa
+        return False
+    return decode(code)[0] < 100
 
 
 def diagnose(ctx, case, preamble=""):
